@@ -1,6 +1,8 @@
 import Mathlib.Data.Nat.Bitwise
 import Mathlib.Tactic.Ring
 import Mathlib.Tactic.Linarith
+import Mathlib.Tactic.IntervalCases
+import Mathlib.Tactic.NormNum
 
 namespace Pydsdl
 
@@ -70,5 +72,298 @@ theorem bitsval_zero_ext (data : List ℕ) (m off n : ℕ) :
 theorem byte_bits (b : ℕ) (hb : b < 256) :
     b % 2 + b / 2 % 2 * 2 + b / 4 % 2 * 4 + b / 8 % 2 * 8 + b / 16 % 2 * 16 + b / 32 % 2 * 32 + b / 64 % 2 * 64 + b / 128 % 2 * 128 = b := by
   omega
+
+end Pydsdl
+
+/-! ## Extensions for the serdes bit layer (C06/C07): statements used as ground-instance schemas by pyvc/bittheory.py -/
+namespace Pydsdl
+
+/-- extensionality of `bitsval` in the bits it reads -/
+theorem bitsval_congr (d1 d2 : List ℕ) (o1 o2 k : ℕ)
+    (h : ∀ i, i < k → Bit d1 (o1 + i) = Bit d2 (o2 + i)) : bitsval d1 o1 k = bitsval d2 o2 k := by
+  induction k with
+  | zero => rfl
+  | succ k ih =>
+    simp only [bitsval]
+    rw [ih (fun i hi => h i (by omega)), h k (by omega)]
+
+/-- a byte string whose zero-extended bytes agree with those of `d` from byte `s` on (slice + zero padding) -/
+theorem bitsval_view (c d : List ℕ) (s m n : ℕ) (hn : n ≤ m)
+    (h : ∀ i, i < m → byteAt c i = byteAt d (s + i)) : bitsval c 0 (8 * n) = bitsval d (8 * s) (8 * n) := by
+  apply bitsval_congr
+  intro i hi
+  unfold Bit
+  have h1 : (8 * s + i) / 8 = s + i / 8 := by omega
+  have h2 : (8 * s + i) % 8 = i % 8 := by omega
+  rw [h1, h2, Nat.zero_add, h (i / 8) (by omega)]
+
+/-- `int.from_bytes(b, 'little')` -/
+def fromBytesLE : List ℕ → ℕ
+  | [] => 0
+  | b :: bs => b + 256 * fromBytesLE bs
+
+theorem Bit_byte (d : List ℕ) (q j : ℕ) (hj : j < 8) : Bit d (8 * q + j) = (byteAt d q / 2 ^ j) % 2 := by
+  unfold Bit
+  have h1 : (8 * q + j) / 8 = q := by omega
+  have h2 : (8 * q + j) % 8 = j := by omega
+  rw [h1, h2]
+
+theorem bitsval_byte (d : List ℕ) (q : ℕ) (h : byteAt d q < 256) : bitsval d (8 * q) 8 = byteAt d q := by
+  have e : bitsval d (8 * q) 8 = Bit d (8 * q + 0) * 2 ^ 0 + Bit d (8 * q + 1) * 2 ^ 1 + Bit d (8 * q + 2) * 2 ^ 2
+      + Bit d (8 * q + 3) * 2 ^ 3 + Bit d (8 * q + 4) * 2 ^ 4 + Bit d (8 * q + 5) * 2 ^ 5
+      + Bit d (8 * q + 6) * 2 ^ 6 + Bit d (8 * q + 7) * 2 ^ 7 := by
+    simp [bitsval]
+  rw [e, Bit_byte d q 0 (by omega), Bit_byte d q 1 (by omega), Bit_byte d q 2 (by omega), Bit_byte d q 3 (by omega),
+    Bit_byte d q 4 (by omega), Bit_byte d q 5 (by omega), Bit_byte d q 6 (by omega), Bit_byte d q 7 (by omega)]
+  have := byte_bits _ h
+  norm_num
+  omega
+
+theorem byteAt_cons_succ (b : ℕ) (bs : List ℕ) (n : ℕ) : byteAt (b :: bs) (n + 1) = byteAt bs n := by
+  simp [byteAt]
+
+theorem bitsval_cons_shift (b : ℕ) (bs : List ℕ) (o k : ℕ) : bitsval (b :: bs) (8 + o) k = bitsval bs o k := by
+  apply bitsval_congr
+  intro i hi
+  unfold Bit
+  have h1 : (8 + o + i) / 8 = (o + i) / 8 + 1 := by omega
+  have h2 : (8 + o + i) % 8 = (o + i) % 8 := by omega
+  rw [h1, h2, byteAt_cons_succ]
+
+theorem fromBytesLE_eq_bitsval (d : List ℕ) (h : ∀ b ∈ d, b < 256) :
+    bitsval d 0 (8 * d.length) = fromBytesLE d := by
+  induction d with
+  | nil => simp [bitsval, fromBytesLE]
+  | cons b bs ih =>
+    have hl : 8 * (b :: bs).length = 8 + 8 * bs.length := by simp; ring
+    rw [hl, bitsval_split]
+    have hb : byteAt (b :: bs) 0 < 256 := by
+      simp [byteAt]; exact h b (by simp)
+    have h8 := bitsval_byte (b :: bs) 0 hb
+    simp only [Nat.mul_zero] at h8
+    rw [h8, Nat.zero_add]
+    have := bitsval_cons_shift b bs 0 (8 * bs.length)
+    simp only [Nat.add_zero] at this
+    rw [this, ih (fun x hx => h x (by simp [hx]))]
+    simp [byteAt, fromBytesLE]
+
+theorem byteAt_beyond (d : List ℕ) (i : ℕ) (h : d.length ≤ i) : byteAt d i = 0 := by
+  simp [byteAt, List.getD_eq_getElem?_getD, List.getElem?_eq_none h]
+
+/-- a read that starts at or beyond the end of the data yields zero -/
+theorem bitsval_beyond (d : List ℕ) (off k : ℕ) (h : 8 * d.length ≤ off) : bitsval d off k = 0 := by
+  induction k with
+  | zero => rfl
+  | succ k ih =>
+    simp only [bitsval, ih, Bit]
+    rw [byteAt_beyond d _ (by omega)]
+    simp
+
+theorem bitsval_append_left (d t : List ℕ) (p k : ℕ) (h : p + k ≤ 8 * d.length) :
+    bitsval (d ++ t) p k = bitsval d p k := by
+  apply bitsval_congr
+  intro i hi
+  unfold Bit
+  have hlt : (p + i) / 8 < d.length := by omega
+  have : byteAt (d ++ t) ((p + i) / 8) = byteAt d ((p + i) / 8) := by
+    simp [byteAt, List.getD_eq_getElem?_getD, List.getElem?_append_left hlt]
+  rw [this]
+
+theorem bitsval_append_right (d t : List ℕ) (k : ℕ) : bitsval (d ++ t) (8 * d.length) k = bitsval t 0 k := by
+  apply bitsval_congr
+  intro i hi
+  unfold Bit
+  have h1 : (8 * d.length + i) / 8 = d.length + i / 8 := by omega
+  have h2 : (8 * d.length + i) % 8 = i % 8 := by omega
+  have : byteAt (d ++ t) (d.length + i / 8) = byteAt t (i / 8) := by
+    simp [byteAt, List.getD_eq_getElem?_getD, List.getElem?_append_right]
+  rw [h1, h2, this, Nat.zero_add]
+
+/-- the `n` low bits of a (two's complement) integer; `/` and `%` on `ℤ` are floor division / modulo for positive divisors -/
+def lsb (v : ℤ) (n : ℕ) : ℤ := v % 2 ^ n
+
+theorem lsb_nonneg_lt (v : ℤ) (n : ℕ) : 0 ≤ lsb v n ∧ lsb v n < 2 ^ n := by
+  have hp : (0 : ℤ) < 2 ^ n := by positivity
+  exact ⟨Int.emod_nonneg _ (ne_of_gt hp), Int.emod_lt_of_pos _ hp⟩
+
+theorem lsb_of_lt (v : ℤ) (n : ℕ) (h0 : 0 ≤ v) (h : v < 2 ^ n) : lsb v n = v := by
+  exact Int.emod_eq_of_lt h0 h
+
+theorem emod_mul_split (v p q : ℤ) (hp : 0 < p) (hq : 0 < q) : v % (p * q) = v % p + p * ((v / p) % q) := by
+  have hpq : 0 < p * q := Int.mul_pos hp hq
+  have h1 : p * (v / p) + v % p = v := by have := Int.emod_add_mul_ediv v p; linarith
+  have h2 : q * (v / p / q) + v / p % q = v / p := by have := Int.emod_add_mul_ediv (v / p) q; linarith
+  have r0 := Int.emod_nonneg v (ne_of_gt hp)
+  have r1 := Int.emod_lt_of_pos v hp
+  have s0 := Int.emod_nonneg (v / p) (ne_of_gt hq)
+  have s1 := Int.emod_lt_of_pos (v / p) hq
+  have key : v / (p * q) = (v / p) / q ∧ v % (p * q) = v % p + p * ((v / p) % q) := by
+    rw [Int.ediv_emod_unique hpq]
+    refine ⟨?_, ?_, ?_⟩
+    · calc v % p + p * (v / p % q) + p * q * (v / p / q)
+          = p * (q * (v / p / q) + v / p % q) + v % p := by ring
+        _ = v := by rw [h2, h1]
+    · have : 0 ≤ p * (v / p % q) := Int.mul_nonneg (le_of_lt hp) s0
+      linarith
+    · have : p * (v / p % q) ≤ p * (q - 1) := Int.mul_le_mul_of_nonneg_left (by linarith) (le_of_lt hp)
+      nlinarith
+  exact key.2
+
+theorem lsb_split (v : ℤ) (a b : ℕ) : lsb v (a + b) = lsb v a + 2 ^ a * lsb (v / 2 ^ a) b := by
+  unfold lsb
+  rw [pow_add]
+  exact emod_mul_split v (2 ^ a) (2 ^ b) (by positivity) (by positivity)
+
+theorem lsb_succ (v : ℤ) (i : ℕ) : lsb v (i + 1) = lsb v i + (v / 2 ^ i % 2) * 2 ^ i := by
+  rw [lsb_split]
+  unfold lsb
+  rw [pow_one]
+  ring
+
+theorem pow2_mono (a b : ℕ) (h : a ≤ b) : (2 : ℕ) ^ a ≤ 2 ^ b := by
+  exact Nat.pow_le_pow_right (by norm_num) h
+
+/-! ### in-place update of one bit of a byte (`buf[q] |= 1 << r` / `buf[q] &= ~(1 << r)`) in a buffer whose bits from
+    position `p = 8q + r` upwards are all zero.  `b = 1`: the new byte is `d[q] ||| (1 <<< r)`; `b = 0`: the new byte is
+    `d[q] - (d[q] / 2^r % 2) * 2^r`. -/
+def newByte (x r b : ℕ) : ℕ := if b = 1 then x ||| (1 <<< r) else x - (x / 2 ^ r % 2) * 2 ^ r
+
+theorem bits_zero_of_bitsval_zero (d : List ℕ) (off k : ℕ) (h : bitsval d off k = 0) :
+    ∀ i, i < k → Bit d (off + i) = 0 := by
+  induction k with
+  | zero => intro i hi; omega
+  | succ k ih =>
+    simp only [bitsval] at h
+    have h1 : bitsval d off k = 0 := by omega
+    have h2 : Bit d (off + k) * 2 ^ k = 0 := by omega
+    have hp : 0 < 2 ^ k := Nat.two_pow_pos k
+    have h3 : Bit d (off + k) = 0 := by
+      rcases Nat.mul_eq_zero.mp h2 with h | h
+      · exact h
+      · omega
+    intro i hi
+    by_cases hik : i = k
+    · rw [hik]; exact h3
+    · exact ih h1 i (by omega)
+
+theorem bitsval_zero_of_bits_zero (d : List ℕ) (off k : ℕ) (h : ∀ i, i < k → Bit d (off + i) = 0) :
+    bitsval d off k = 0 := by
+  induction k with
+  | zero => rfl
+  | succ k ih =>
+    simp only [bitsval]
+    rw [ih (fun i hi => h i (by omega)), h k (by omega)]
+    simp
+
+theorem byte_lt_of_high_zero (x r : ℕ) (hx : x < 256) (hr : r ≤ 7)
+    (h : ∀ j, r ≤ j → j ≤ 7 → (x / 2 ^ j) % 2 = 0) : x < 2 ^ r := by
+  have h0 := h 0
+  have h1 := h 1
+  have h2 := h 2
+  have h3 := h 3
+  have h4 := h 4
+  have h5 := h 5
+  have h6 := h 6
+  have h7 := h 7
+  interval_cases r <;> norm_num at h0 h1 h2 h3 h4 h5 h6 h7 ⊢ <;> omega
+
+theorem bit_of_sum (x r b s : ℕ) (hx : x < 2 ^ r) (hr : r ≤ 7) (hb : b ≤ 1) (hs : s ≤ 7) :
+    ((x + b * 2 ^ r) / 2 ^ s) % 2 = if s < r then (x / 2 ^ s) % 2 else if s = r then b else 0 := by
+  interval_cases r <;> interval_cases s <;> norm_num at hx ⊢ <;> omega
+
+theorem byteAt_set (d : List ℕ) (q v j : ℕ) (hq : q < d.length) :
+    byteAt (d.set q v) j = if j = q then v else byteAt d j := by
+  unfold byteAt
+  simp only [List.getD_eq_getElem?_getD, List.getElem?_set]
+  by_cases h : j = q
+  · subst h; simp [hq]
+  · have h' : ¬ q = j := fun e => h e.symm
+    simp [h, h']
+
+/-- all the bit-level facts about the in-place update, bundled -/
+theorem set_bit_bits (d : List ℕ) (q r b : ℕ) (hq : q < d.length) (hr : r ≤ 7) (hb : b ≤ 1)
+    (hbyte : byteAt d q < 256) (tail : bitsval d (8 * q + r) (8 * d.length - (8 * q + r)) = 0) :
+    byteAt d q < 2 ^ r ∧ newByte (byteAt d q) r b = byteAt d q + b * 2 ^ r ∧
+    (∀ j, j < 8 * q + r → Bit (d.set q (newByte (byteAt d q) r b)) j = Bit d j) ∧
+    Bit (d.set q (newByte (byteAt d q) r b)) (8 * q + r) = b ∧
+    (∀ j, 8 * q + r < j → j < 8 * d.length → Bit (d.set q (newByte (byteAt d q) r b)) j = 0) := by
+  have hz := bits_zero_of_bitsval_zero d _ _ tail
+  have hz' : ∀ j, 8 * q + r ≤ j → j < 8 * d.length → Bit d j = 0 := by
+    intro j h1 h2
+    have := hz (j - (8 * q + r)) (by omega)
+    rwa [show 8 * q + r + (j - (8 * q + r)) = j by omega] at this
+  have hx : byteAt d q < 2 ^ r := by
+    apply byte_lt_of_high_zero _ _ hbyte hr
+    intro j h1 h2
+    rw [← Bit_byte d q j (by omega)]
+    exact hz' _ (by omega) (by omega)
+  have hv : newByte (byteAt d q) r b = byteAt d q + b * 2 ^ r := by
+    unfold newByte
+    by_cases hb1 : b = 1
+    · rw [if_pos hb1, or_disjoint _ _ _ hx, hb1]
+    · have hb0 : b = 0 := by omega
+      rw [if_neg hb1, hb0, Nat.div_eq_of_lt hx]
+      simp
+  refine ⟨hx, hv, ?_, ?_, ?_⟩
+  · intro j hj
+    unfold Bit
+    rw [byteAt_set _ _ _ _ hq]
+    by_cases hjq : j / 8 = q
+    · rw [if_pos hjq, hv, hjq, bit_of_sum _ _ _ _ hx hr hb (by omega), if_pos (by omega)]
+    · rw [if_neg hjq]
+  · rw [Bit_byte _ _ _ (by omega), byteAt_set _ _ _ _ hq, if_pos rfl, hv, bit_of_sum _ _ _ _ hx hr hb hr]
+    simp
+  · intro j h1 h2
+    unfold Bit
+    rw [byteAt_set _ _ _ _ hq]
+    by_cases hjq : j / 8 = q
+    · rw [if_pos hjq, hv, bit_of_sum _ _ _ _ hx hr hb (by omega), if_neg (by omega), if_neg (by omega)]
+    · rw [if_neg hjq]
+      exact hz' j (by omega) h2
+
+theorem set_bit_byte_range (d : List ℕ) (q r b : ℕ) (hq : q < d.length) (hr : r ≤ 7) (hb : b ≤ 1)
+    (hbyte : byteAt d q < 256) (tail : bitsval d (8 * q + r) (8 * d.length - (8 * q + r)) = 0) :
+    newByte (byteAt d q) r b ≤ 255 := by
+  obtain ⟨hx, hv, -, -, -⟩ := set_bit_bits d q r b hq hr hb hbyte tail
+  rw [hv]
+  have h2 : 2 ^ r * 2 ≤ 256 := by
+    have := pow2_mono (r + 1) 8 (by omega)
+    rw [Nat.pow_succ] at this
+    norm_num at this ⊢
+    exact this
+  have h3 : b * 2 ^ r ≤ 2 ^ r := by
+    calc b * 2 ^ r ≤ 1 * 2 ^ r := Nat.mul_le_mul_right _ hb
+      _ = 2 ^ r := Nat.one_mul _
+  omega
+
+/-- reads that end at or before the updated bit are unchanged -/
+theorem set_bit_below (d : List ℕ) (q r b off k : ℕ) (hq : q < d.length) (hr : r ≤ 7) (hb : b ≤ 1)
+    (hbyte : byteAt d q < 256) (tail : bitsval d (8 * q + r) (8 * d.length - (8 * q + r)) = 0)
+    (hok : off + k ≤ 8 * q + r) :
+    bitsval (d.set q (newByte (byteAt d q) r b)) off k = bitsval d off k := by
+  obtain ⟨-, -, hlow, -, -⟩ := set_bit_bits d q r b hq hr hb hbyte tail
+  apply bitsval_congr
+  intro i hi
+  exact hlow _ (by omega)
+
+/-- a read that ends with the updated bit gains `b * 2^(k-1)` -/
+theorem set_bit_read (d : List ℕ) (q r b off k : ℕ) (hq : q < d.length) (hr : r ≤ 7) (hb : b ≤ 1)
+    (hbyte : byteAt d q < 256) (tail : bitsval d (8 * q + r) (8 * d.length - (8 * q + r)) = 0)
+    (hk : 1 ≤ k) (hok : off + k = 8 * q + r + 1) :
+    bitsval (d.set q (newByte (byteAt d q) r b)) off k = bitsval d off (k - 1) + b * 2 ^ (k - 1) := by
+  obtain ⟨-, -, -, hmid, -⟩ := set_bit_bits d q r b hq hr hb hbyte tail
+  obtain ⟨k', rfl⟩ : ∃ k', k = k' + 1 := ⟨k - 1, by omega⟩
+  simp only [bitsval, Nat.add_sub_cancel]
+  rw [set_bit_below d q r b off k' hq hr hb hbyte tail (by omega),
+    show off + k' = 8 * q + r by omega, hmid]
+
+/-- every bit above the updated one is still zero -/
+theorem set_bit_tail (d : List ℕ) (q r b : ℕ) (hq : q < d.length) (hr : r ≤ 7) (hb : b ≤ 1)
+    (hbyte : byteAt d q < 256) (tail : bitsval d (8 * q + r) (8 * d.length - (8 * q + r)) = 0) :
+    bitsval (d.set q (newByte (byteAt d q) r b)) (8 * q + r + 1) (8 * d.length - (8 * q + r) - 1) = 0 := by
+  obtain ⟨-, -, -, -, hhigh⟩ := set_bit_bits d q r b hq hr hb hbyte tail
+  apply bitsval_zero_of_bits_zero
+  intro i hi
+  exact hhigh _ (by omega) (by omega)
 
 end Pydsdl
